@@ -33,7 +33,7 @@ GNext ==
     \/ /\ Room
        /\ \/ \E id \in TxnId, R \in ReqSample, d \in BOOLEAN, f \in FailKinds, t \in TmoKinds :
                TxBegin(id, R, d, f, t) /\ In([op |-> "txset", id |-> id, dry |-> d, intents |-> R, devfail |-> (f = "device"), tmoc |-> t,
-                                                 rescfg |-> FunToPairs(ResultCfg(NewStore(intended, R), device))])
+                                                 rescfg |-> FunToPairs(ResultCfg(NewStore(intended, R), device, R))])
           \/ \E id \in TxnId, R \in {{i} : i \in RandomSubset(1, IntentSet)} :
                /\ GoodRequest(R) /\ TxRefused(id)
                /\ In([op |-> "txset", id |-> id, dry |-> FALSE, intents |-> R, devfail |-> FALSE, tmoc |-> "long"])
